@@ -15,10 +15,10 @@ fn scratch_target(tag: &str) -> std::path::PathBuf {
 }
 impl Space for FeatureMatrix {
     fn name(&self) -> String {
-        "cargo check --no-default-features --features <S> for all 8 subsets S of {alloc,std,to_str}; build of the #![no_std] allocator-less staticlib probe".into()
+        "cargo check --no-default-features --features <S> for all 8 subsets S of {alloc,std,to_str}; build of the #![no_std] allocator-less staticlib probe against elf with no features and with {to_str}".into()
     }
     fn size(&self) -> u64 {
-        9
+        10
     }
     fn chunk_hint(&self) -> u64 {
         1
@@ -31,7 +31,7 @@ impl Space for FeatureMatrix {
             let f: Vec<&str> = (0..3).filter(|b| idx >> b & 1 == 1).map(|b| FEATS[b]).collect();
             json!({"cargo_check_features": f})
         } else {
-            json!({"build": "nostd_probe (no_std staticlib, own panic handler, no global allocator)"})
+            json!({"build": "nostd_probe (no_std staticlib, own panic handler, no global allocator)", "elf_features": if idx == 8 { "none" } else { "to_str" }})
         }
     }
     fn run(&self, idx: u64, out: &mut Outcome) {
@@ -65,7 +65,8 @@ impl Space for FeatureMatrix {
             let o = Command::new("cargo")
                 .args(["build", "--offline", "--quiet", "--release", "--manifest-path"])
                 .arg(probe.join("Cargo.toml"))
-                .env("CARGO_TARGET_DIR", scratch_target("probe"))
+                .args(if idx == 9 { vec!["--features", "to_str"] } else { vec![] })
+                .env("CARGO_TARGET_DIR", scratch_target(if idx == 9 { "probe_to_str" } else { "probe" }))
                 .env("CARGO_NET_OFFLINE", "true")
                 .output();
             match o {
@@ -74,7 +75,7 @@ impl Space for FeatureMatrix {
                     if !o.status.success() {
                         let err = String::from_utf8_lossy(&o.stderr);
                         out.violate(
-                            "no_std-consumer-does-not-link",
+                            if idx == 9 { "no_std-consumer-does-not-link(elf feature to_str)" } else { "no_std-consumer-does-not-link" },
                             err.lines().filter(|l| l.starts_with("error")).take(6).collect::<Vec<_>>().join(" | "),
                         );
                     }
@@ -88,6 +89,9 @@ impl Space for FeatureMatrix {
 
 pub fn build(tier: Tier) -> CheckDef {
     let (mut spaces, bounds) = spaces_for(tier, Mode::ZeroAlloc, Also::ZeroAlloc, "C06 zero alloc");
+    // long chains, large tables and link structures under the same zero-allocation demand
+    super::c16_graphs::ZERO_ALLOC_MODE.store(true, std::sync::atomic::Ordering::Relaxed);
+    spaces.extend(super::c16_graphs::spaces(tier));
     spaces.push(Box::new(FeatureMatrix));
     CheckDef {
         prop: "C06",
